@@ -88,7 +88,9 @@ CloseBlock   == /\ Normal /\ Cur.cls = "close"
                 /\ IF stack # <<>> /\ Top.kind = Cur.kind THEN Pop /\ Advance /\ UNCHANGED <<verdict, tainted>>
                    ELSE Fail                            \* end tag without its opener / mis-nested
 MidTag       == /\ Normal /\ Cur.cls = "mid"
-                /\ IF stack # <<>> /\ Cur.ok /\ MidAllowed(Top.kind, Top.mode, Cur.which)
+                \* if / unless do not look at the arguments of their else (if_block.rs); for and case do (expect_nothing)
+                /\ IF stack # <<>> /\ (Cur.ok \/ (Cur.which = "else" /\ Top.kind \in {"if", "unless"}))
+                      /\ MidAllowed(Top.kind, Top.mode, Cur.which)
                    THEN SetMode(IF Top.mode = "unspec" THEN "unspec" ELSE MidMode(Top.kind, Cur.which)) /\ Advance /\ UNCHANGED <<verdict, tainted>>
                    ELSE IF stack # <<>> /\ Top.mode = "unspec" THEN Advance /\ UNCHANGED <<stack, verdict, tainted>>
                    ELSE Fail
